@@ -1,9 +1,13 @@
 import Lean.Data.Json
 import SpoxModel.Model.Front
 import SpoxModel.Generated.RenamesIR
+import SpoxModel.Model.FrontIR
+import SpoxModel.Generated.BuildFrontIR
 /-! Line-protocol handler for C03 (also used by C12): run `spox.build`'s front-end model on an
     abstract program and a request; report graph inputs/outputs, the error class and the names of
-    all Vars afterwards. The IR of `_temporary_renames` is the one generated from /repo. -/
+    all Vars afterwards. The IR of `_temporary_renames` is the one generated from /repo, and so is the
+    statement list of `build` itself (`Generated/BuildFrontIR.lean`), executed by `FrontIR.run`
+    (`"fixed": false` asks for the hand-written pre-fix model `Front.build … false` instead). -/
 namespace Drv.C03
 open Lean Front
 
@@ -60,7 +64,9 @@ def handle (req : Json) : Json :=
     let pi := (req.getObjValAs? Nat "pi").toOption.getD 0
     let fixed := (req.getObjValAs? Bool "fixed").toOption.getD true
     let store := storeOf (← parseStore req)
-    let (s1, r) := build Generated.RenamesIR.ir P (perm pi) fixed ⟨ins, outs, drop⟩ store
+    let (s1, r) := if fixed
+      then FrontIR.run Generated.BuildFrontIR.ir Generated.RenamesIR.ir P (perm pi) ⟨ins, outs, drop⟩ store
+      else build Generated.RenamesIR.ir P (perm pi) false ⟨ins, outs, drop⟩ store
     let names : List Json := (List.range objs.length).map (fun v => match s1 v with
       | some n => Json.str n | none => Json.null)
     let res := match r with
